@@ -18,6 +18,7 @@ type FuncResult struct {
 	Havocked  []string
 	EffFree   []string
 	Unsupp    []string
+	Immut     []string
 	Err       string
 	Stale     bool
 	ScriptLen int
@@ -61,12 +62,12 @@ func (w *World) VerifyFunc(ct *Contract) (res *FuncResult) {
 	fr.retVals = rets
 	fr.loopHdr = nil
 	for k, en := range ct.Ensures {
-		f := e.evalBool(fr, en.Expr, out, entry, en)
+		f, watch := e.evalBoolWatch(e.hostEnv(fr), en.Expr, out, entry, en)
 		o := e.ob(fr, "post", fmt.Sprintf("post#%d", k), reach, f, en.Src, fn.Pos())
-		_ = o
+		o.Watch = append(append(e.paramWatch(fr), watch...), e.contractWatch(fr, out, entry)...)
 	}
 	// frame: every component changed must be covered by modifies (default: nothing)
-	if reach != "false" {
+	if reach != "false" && ct.ModSet {
 		e.frameObligations(fr, ct, entry, out, reach)
 	}
 	// vacuity: the exit must be reachable under the requires and all assumed callee contracts
@@ -80,6 +81,7 @@ func (w *World) VerifyFunc(ct *Contract) (res *FuncResult) {
 	res.Havocked = sortedKeys(e.havocked)
 	res.EffFree = sortedKeys(e.effFree)
 	res.Unsupp = sortedKeys(e.unsupp)
+	res.Immut = sortedKeys(e.immut)
 	res.ScriptLen = len(e.sc.lines)
 	return res
 }
@@ -132,3 +134,50 @@ func compShort(c string) string {
 }
 
 var _ = types.Typ
+
+func (e *Enc) paramWatch(fr *Frame) []WatchItem {
+	var w []WatchItem
+	for i, p := range fr.fn.Params {
+		if i < len(fr.args) && fr.args[i].Tuple == nil {
+			w = append(w, WatchItem{Src: "param " + p.Name(), Term: fr.args[i].T, Sort: e.sortOf(p.Type())})
+		}
+	}
+	for i, r := range fr.retVals {
+		if r.Tuple == nil {
+			w = append(w, WatchItem{Src: fmt.Sprintf("ret%d", i), Term: r.T, Sort: e.sortOf(r.Typ)})
+		}
+	}
+	return w
+}
+
+// contractWatch evaluates the contract's `watch` expressions (inputs a replay needs).
+func (e *Enc) contractWatch(fr *Frame, cur, old *State) []WatchItem {
+	top := fr.top
+	if top == nil || top.contract == nil {
+		return nil
+	}
+	var out []WatchItem
+	for _, wc := range top.contract.Watch {
+		env := e.hostEnv(top)
+		env.cl = wc
+		func() {
+			defer func() {
+				if r := recover(); r != nil {
+					if ee, ok := r.(evalErr); ok {
+						e.w.contractErrors = append(e.w.contractErrors, ee.msg)
+						return
+					}
+					panic(r)
+				}
+			}()
+			var w []WatchItem
+			env.watch = &w
+			v := e.eval(env, wc.Expr, cur, old)
+			if v.Tuple == nil && v.Typ != nil {
+				out = append(out, WatchItem{Src: wc.Src, Term: v.T, Sort: e.sortOf(v.Typ)})
+			}
+			out = append(out, w...)
+		}()
+	}
+	return out
+}
